@@ -20,3 +20,11 @@ func (st *State) VerifDump() map[uint8]map[string]crdt.Value {
 
 // VerifDurable reports whether the state uses the durable backend.
 func (st *State) VerifDurable() bool { return st.durable }
+
+// VerifBanExpires reports whether the persisted record of a ban carries an expiry time.
+func (st *State) VerifBanExpires(ev Event) bool {
+	if d, ok := st.subsets[typeBan].(*crdt.Durable); ok {
+		return d.VerifExpires(ev.Key())
+	}
+	return false
+}
